@@ -33,6 +33,11 @@ def powFastPath (S : SmallSet) (F : FTy) (radix e : Nat) : Option Nat := (S.floa
 /-- `F::int_pow_fast_path(e, radix)` -/
 def intPowFastPath (S : SmallSet) (radix e : Nat) : Option Nat := (S.intPow radix)[e]?
 
+/-- literals of `try_fast_path` in source order: only `self.exponent < 0`; `is_fast_path` has none (every limit
+is a constant or a table, tied by R) -/
+def tryFastPathLiterals : List Nat := [0]
+def isFastPathLiterals : List Nat := []
+
 /-- attach the sign: `value = -value` -/
 def withSign (F : FTy) (neg : Bool) (bits : Nat) : Nat := if neg then bits + F.fmt.signBit else bits
 
